@@ -449,6 +449,28 @@ def check_agreement(ctx, fb, prog, rule="R03.6"):
     if len(twin) < 3:
         raise AnalysisBroken("set-up rules: the annex decisions of VerifyWitnessProgram were not recognised (%s)" % sorted(twin, key=repr))
 
+    # the annex hash: same hasher, same serialisation (a byte vector is written with its compact-size length, a Span without) of
+    # the last witness item
+    def last_item(t, stack_pred):
+        def go(x):
+            if isinstance(x, tuple) and x[:2] == ("ap", "m:back") and len(x) == 3 and stack_pred(x[2]):
+                return ("a", "LAST-WITNESS-ITEM")
+            if isinstance(x, tuple) and x[:2] == ("ap", "SpanPopBack") and len(x) == 3 and stack_pred(x[2]):
+                return ("a", "LAST-WITNESS-ITEM")
+            if isinstance(x, tuple) and x and x[0] == "ap" and x[1] in ("new:Span", "Span", "MakeSpan", "new:std::vector") and len(x) == 3:
+                return go(x[2])      # a view / copy of the item: what is written is decided by the operand type recorded in the stream term
+            if isinstance(x, tuple):
+                return tuple(go(y) for y in x)
+            return x
+        return go(t)
+    mine_h = {last_item(exec_field(o, "m_annex_hash"), from_witness) for o in tap if exec_field(o, "m_annex_present") == C(1) and exec_field(o, "m_annex_hash") is not None}
+    twin_h = {last_item(heap_by_name(o, "m_annex_hash"), lambda s_: symx.contains(s_, ("a", "witness"))) for o in touts if heap_by_name(o, "m_annex_present") == C(1) and heap_by_name(o, "m_annex_hash") is not None}
+    if len(twin_h) != 1 or not symx.contains(list(twin_h)[0], ("a", "LAST-WITNESS-ITEM")):
+        raise AnalysisBroken("set-up rules: the annex hash of VerifyWitnessProgram was not recognised (%s)" % [symx.show(t)[:80] for t in twin_h])
+    ctx.inst(mine_h == twin_h, rule, "annex-hash", cf.loc(), "the annex hash of set-up is VerifyWitnessProgram's: %s" % symx.show(list(twin_h)[0])[:100],
+             "the annex hash at set-up is %s, the verifier's is %s: signatures over a spend with an annex commit to a different sha_annex (valid ones fail, others pass)"
+             % ("; ".join(symx.show(t)[:110] for t in sorted(mine_h, key=repr)) or "never computed", symx.show(list(twin_h)[0])[:110]))
+
     def row(r):
         return "size>=%s, non-empty=%s, tag=%s -> present=%s" % (r[0] if r[0] != -1 else "<2", r[1], r[2], symx.show(r[3]) if r[3] is not None else "unset")
     ctx.inst(mine == twin, rule, "annex-rule", cf.loc(), "the annex decisions of set-up equal VerifyWitnessProgram's: %s" % "; ".join(row(r) for r in sorted(twin, key=repr)),
